@@ -14,7 +14,7 @@ RULE = ("Twins ops: every group of equivalent entry points is run on private cop
 ASSUME = [common.TRUSTED, "fast-path readers are compared only on inputs whose key certificate declares their key types"]
 META = {
     "level": "model_checking",
-    "technique": "twin relation (TwinGroup/TwinApplies) in the TLA+ trace specification; TLC-checked state machine of the certificate builder (MC_Objects: contract vs implementation shape, 2 negative controls) with step-wise trace validation of replayed call histories; TLC-computed inputs replayed through every alternative entry point; pairwise agreement of (accept, serialisation, remainder) validated by TLC, each result also judged against the reference decoder; every certificate a builder handed out is kept and re-examined after every later call (KeptUnchanged in MC_Objects, scratch-sharing negative control)",
+    "technique": "twin relation (TwinGroup/TwinApplies) in the TLA+ trace specification; TLC-checked state machine of the certificate builder (MC_Objects: contract vs implementation shape, 2 negative controls) with step-wise trace validation of replayed call histories; TLC-computed inputs replayed through every alternative entry point; pairwise agreement of (accept, serialisation, remainder) validated by TLC, each result also judged against the reference decoder; every certificate a builder handed out is kept and re-examined after every later call (KeptUnchanged in MC_Objects, scratch-sharing negative control); heap machine of results and the arrays behind them (MC_Fresh, template-sharing negative control) sampled by the again-twins of every constructor vector (call, overwrite everything reachable from the result, call again)",
     "text": ("Each twin is additionally judged on its own against the reference decoder, so two twins that regress together are still caught, and "
              "a fix or regression applied to one twin only shows as a disagreement. Covers the ~25 pairs named in the property over the C01 "
              "input space (all type pairs, certificate kinds, cut and appended inputs)."),
@@ -23,6 +23,8 @@ META = {
 
 
 def check(run):
+    # who owns the memory behind a result: the machine behind the kept-result chains, the "again" twins and the edited struct copies
+    common.mc_fresh(run, controls=("template",))
     common.mc_structs(run, kinds=("cert", "identity"))
     common.gen_structs(run, fams1=("cert", "ident", "mapping"), fams2=("prims", "lease", "sig"))
     run.gen("Gen_Build", consts={"Fam": "keycert"}, tag="Gen_Build_keycert")
